@@ -215,6 +215,22 @@ def gen_case(rnd, ctx, max_types, max_offers, nq):
         for _ in range(no - nr):
             offers.insert(rnd.randrange(len(offers) + 1), [rnd.randrange(n), rnd.randrange(n), gen_fac(rnd, no)])
         hub = route[-1]
+    elif shape < 0.75 and sub is not None and n > 2 and no > 1:
+        # competition: several single-step offers from different supertypes of one source to one target
+        # (exercises MRO distances, the edge sort and the specificity tie-break)
+        cands = [(a, b) for a in range(n) for b in range(n) if not sub[a][b] and sum(sub[a]) >= 2]
+        if cands:
+            a, b = rnd.choice(cands)
+            sups = [t for t in range(n) if sub[a][t]]
+            for _ in range(no):
+                r = rnd.random()
+                f = rnd.choice(sups) if r < 0.8 else rnd.randrange(n)
+                offers.append([f, b if r < 0.9 else rnd.randrange(n), ["A"] if rnd.random() < 0.8 else gen_fac(rnd, no)])
+            route = [a, b]
+            hub = b
+            ctx.count("shape:competition")
+        else:
+            offers = [[rnd.randrange(n), rnd.randrange(n), gen_fac(rnd, no)] for _ in range(no)]
     else:
         for _ in range(no):
             f = rnd.randrange(n)
@@ -257,6 +273,10 @@ def corpus():
     # the same without the incomparable offer: the specific offer wins
     cs.append(dict(types=types, regs=[], offers=[[1, 5, ["A"]], [2, 5, ["A"]]],
                    ops=[[4, 5, 0, a] for a in ("adapt", "Supports")]))
+    # MRO distance counts only the LEADING providers: T2(T0, T1) is at distance 1 from T0 and 0 from T1
+    mi = [{"bases": []}, {"bases": []}, {"bases": [0, 1]}, {"bases": []}]
+    for offs in ([[0, 3, ["A"]], [1, 3, ["A"]]], [[1, 3, ["A"]], [0, 3, ["A"]]]):
+        cs.append(dict(types=mi, regs=[], offers=offs, ops=[[2, 3, 0, "adapt"], [2, 3, 0, "AdaptsTo"]]))
     # cycle + failing conditional factory + longer detour
     cs.append(dict(types=[{"bases": []}] * 4, regs=[],
                    offers=[[0, 1, ["A"]], [1, 0, ["A"]], [1, 3, ["N"]], [1, 2, ["A"]], [2, 3, ["D", 1]], [2, 3, ["X", 3]],
@@ -318,7 +338,7 @@ def run(ctx):
     if ctx.replay:
         cases = [json.load(open(ctx.replay))["replay"]["case"]]
     elif ctx.tier == "quick":
-        cases = corpus() + [gen_case(rnd, ctx, 5, 6, 8) for _ in range(1500)]
+        cases = corpus() + [gen_case(rnd, ctx, 5, 6, 8) for _ in range(1200)]
     else:
         grid = exhaustive(ctx, 3, 2, [["A"], ["N"]])
         seen = set(json.dumps(c, sort_keys=True) for c in grid)
